@@ -26,7 +26,7 @@ from hypothesis import strategies as st
 from vlib import gen
 from vlib.build import build_obs
 from vlib import findings
-from vlib.core import Sub, Skip, Violation, require
+from vlib.core import Sub, Skip, Violation, require, spec_hash
 from vlib.refobs import RefObs, combine, cmp_obs
 
 PROPERTY = 'C07'
@@ -348,6 +348,9 @@ def fit_case(draw, tier, methods=('LM',), num_grad_ok=True, force_perm=False):
         # proportional to |x0|); that is about the minimiser's start-up, not about this property
         'guess': draw(st.one_of(st.none(), st.none(), st.lists(st.integers(-30, 30).map(lambda i: i / 10.0), min_size=nparm, max_size=nparm))),
         'method_explicit': draw(st.booleans()),
+        # eigenvalue smoothing of the estimated correlation matrix (keyword arguments are forwarded to pyerrors.obs.covariance,
+        # to which the docstring of correlated_fit refers): E with 2 < E < n - 1
+        'smooth': draw(st.integers(3, ntot - 2)) if (correlated == 'estimated' and ntot >= 5 and draw(st.integers(0, 2)) == 0) else None,
     }
     exclude_vanishing_solution(spec)
     if correlated == 'supplied':
@@ -453,6 +456,13 @@ class Case:
                     po = v + (o - o.value) * (dp / d0)
                     pdv = analyse(po, it['S'], 'prior')
                     self.priors.append({'k': k, 'arg': po, 'v': float(po.value), 'dv': pdv, 'ref': RefObs.from_pe(po)})
+            # the same observable *object* as prior of two parameters (every fourth case that has two Obs priors; a pure
+            # function of the spec): each prior row has its own sensitivity, the contributions add up
+            obs_pri = [q for q in self.priors if q['ref'] is not None]
+            if len(obs_pri) >= 2 and int(spec_hash(spec), 16) % 4 == 0:
+                a_, b_ = obs_pri[0], obs_pri[1]
+                b_['arg'], b_['v'], b_['dv'], b_['ref'] = a_['arg'], a_['v'], a_['dv'], a_['ref']
+                self.same_prior_object = True
         # weights in flat order
         self.corr_kind = None
         self.corr = None
@@ -462,6 +472,15 @@ class Case:
             self.W = L.T @ L
         elif spec['correlated'] == 'estimated':
             self.corr, self.corr_kind = self.reference_correlation()
+            if spec.get('smooth'):
+                # hep-lat/9412087 as documented in pyerrors.obs.covariance: eigenvalues below the mean of all but the E largest
+                # are raised to that mean, then the spectrum is rescaled to unit mean
+                E_ = int(spec['smooth'])
+                vals, vec = np.linalg.eigh(self.corr)
+                lam = float(np.mean(vals[:-E_]))
+                vals = np.where(vals < lam, lam, vals)
+                vals = vals / np.mean(vals)
+                self.corr = vec @ np.diag(vals) @ vec.T
             check_invertible(self.corr, self.corr_kind)
             cov = np.diag(self.dy) @ self.corr @ np.diag(self.dy)
             self.W = np.linalg.inv(cov)
@@ -546,6 +565,8 @@ def call_fit(case, variant=None):
     Wcall = case.W[np.ix_(sigma, sigma)]
     if spec['correlated']:
         kw['correlated_fit'] = True
+    if spec.get('smooth'):
+        kw['smooth'] = int(spec['smooth'])
     if spec['correlated'] == 'supplied':
         if sigma == list(range(case.ntot)):
             Lc = case.L
@@ -742,7 +763,9 @@ def case_labels(case, extra=()):
     labs = set(extra)
     labs.add('method:' + spec['method'])
     labs.add('grad:' + ('num' if spec['num_grad'] else 'auto'))
-    labs.add('corr:' + str(spec['correlated']))
+    labs.add('corr:' + str(spec['correlated']) + (':smooth' if spec.get('smooth') else ''))
+    if getattr(case, 'same_prior_object', False):
+        labs.add('prior:same_object_twice')
     if case.corr_kind:
         labs.add(case.corr_kind)
     labs.add('nparm:%d' % case.nparm)
